@@ -4,7 +4,7 @@ import itertools
 import z3
 
 from .. import symx
-from ..run import Harness
+from ..run import Harness, Prepared
 from ..symx import choice, INT64_MIN
 from ..tree import Arr, Frame, Raised
 from .common import (BV, T, const_ints, frame_rows_clauses, isna, kind_of, mk_col, rid_col, same_key, val_lt,
@@ -124,7 +124,9 @@ def harnesses(tier):
         hs.append(Sort(["T", "i"], 2))
         hs.append(Sort(["us"], 3))          # microsecond ticks reach beyond 2**53 within years 1..9999
         hs.append(Sort(["td"], 2))
+        hs.append(Prepared(Sort(["U"], 2))); hs.append(Prepared(Sort(["T", "i"], 2)))
     else:
+        for k in ("U", "T", "f", "i"): hs.append(Prepared(Sort([k], 3)))
         kinds = ["f", "i", "T", "b", "D", "us", "U", "O"]
         for k in kinds + ["td"]:
             hs.append(Sort([k], 4))
